@@ -34,6 +34,10 @@ class FortranError(Exception):
     pass
 
 
+class NotFortran(FortranError):
+    """the text is not an expression of the language at all (stray token): nothing it could mean"""
+
+
 TOK = re.compile(r"\s*(\d+\.?\d*(?:[dDeE][+-]?\d+)?|\.\d+(?:[dDeE][+-]?\d+)?|\*\*|[A-Za-z_][A-Za-z_0-9]*|[-+*/(),:])")
 
 
@@ -51,6 +55,8 @@ def ftokens(s):
 
 def fortran_term(text, env):
     """-> (value, is_integer); value is Fraction or z3 term"""
+    # fixed-form source ignores blanks: '1.5 e-3' is the literal 1.5e-3
+    text = re.sub(r"(\d\.?\d*|\.\d+)\s+([dDeE])\s*([+-]?)\s*(\d+)", r"\1\2\3\4", text)
     toks = ftokens(text)
     i = [0]
 
@@ -176,7 +182,7 @@ def fortran_term(text, env):
 
     v = expr()
     if peek() is not None:
-        raise FortranError(f"trailing {peek()!r}")
+        raise NotFortran(f"trailing {peek()!r}")
     return v
 
 
@@ -241,7 +247,9 @@ def gen_exprs(n, seed, depth=3):
             "1.4d-18*Tgas**0.928d0*exp(-Tgas/16200.)", "dexp(-4.4d0*lnTe)", "3.92d-13*invTe**0.6353d0", "(T32)**(-0.5)", "2.5d0**Tgas", "sqrt(Tgas)*sqrTgas", "user_a*user_crflux/1.3d-17", "1.d0/Tgas", "2.e-10", ".5d0*Tgas", "Tgas-2", "Tgas -2", "Tgas+-2",
             # trigonometric / hyperbolic intrinsics and their inverses (same names in Fortran and C)
             "2.1d-10*atan(Tgas/1.d3)", "asin(invT)", "acos(T32/(1.d0+T32))", "sinh(lnTe)*1d-12", "tanh(Tgas/1d4)", "cos(Tgas/1.d2)+sin(Tgas/1.d2)", "atanh(invT/2.d0)", "1d-9*tan(invT)", "asinh(T32)", "acosh(1.d0+T32)", "cosh(invTe)",
-            "dsqrt(Tgas)", "dlog10(Tgas)*1d-10", "dlog(Tgas)"]
+            "dsqrt(Tgas)", "dlog10(Tgas)*1d-10", "dlog(Tgas)",
+            # literals whose exponent is separated from the mantissa (fixed-form spelling) or doubled: reject, or keep the value
+            "1.5 e-3*Tgas", "Tgas+2 E 3", "Tgas**(-0.5 e0)", "2.5e-1 e1*Tgas", "4.2d-10*exp(-1.5 e+2*invT)"]
     for e in base:
         if e not in seen:
             seen.add(e)
@@ -384,6 +392,9 @@ def main(pid, tier):
             name = f"expr[{idx}] {fe}"
             try:
                 ref, _ = fortran_term(fe, env)
+            except NotFortran as e:
+                chk.violation("accepts-non-fortran:" + re.sub(r"[A-Za-z_]\w*", "v", re.sub(r"\d", "9", fe))[:60], f"the translator accepts {fe!r}, which is not a Fortran expression ({e}), and emits C {ce!r}: it should have been rejected", {"fortran": fe, "c": ce, "reader": str(e)})
+                continue
             except FortranError as e:
                 chk.unknown(name, f"reference reader: {e}")
                 continue
@@ -473,4 +484,7 @@ def shape_key(fe, ce=""):
         return "lexer:signed-literal-as-power-base"
     if "pow(pow(" in c and fe.count("**") >= 2:
         return "power:chained-**-is-left-associated"
+    # integer ** integer is an integer in Fortran (so 2/(3**3+2) is an integer division), pow() makes it a double
+    if re.search(r"pow\(\d+,\(?-?\d+\)?\)", c) and re.search(r"(?<![\w.])\d+\*\*\(?-?\d+\)?(?![\w.])", f) and "/" in f:
+        return "integer-arithmetic:int**int-becomes-double-pow"
     return "expr:" + fe
